@@ -138,6 +138,11 @@ func (c *updater) buildHostSSLPassthrough(d *hostData) {
 		return
 	}
 	hostBackend := rootPaths[0].Backend
+	if hostBackend.ID == "" {
+		// e.g. the root path is a redirect
+		c.logger.Warn("skipping SSL of %s: root path does not have a backend", sslpassthrough.Source)
+		return
+	}
 	sslpassHTTPPort := d.mapper.Get(ingtypes.HostSSLPassthroughHTTPPort)
 	if sslpassHTTPPort.Source != nil {
 		httpBackend := c.haproxy.Backends().FindBackend(hostBackend.Namespace, hostBackend.Name, sslpassHTTPPort.Value)
